@@ -77,16 +77,16 @@ CHECKS.update({
         text='Theorems (partial at document level only): reconcile_change_groups returns, for all item lists whose loose items are tags and whose deleted groups carry the deletion marker (both proved of the grouping output), a flattening of items containing every group of both sides exactly once (Permutation) and otherwise tags - whichever early exit is taken; assemble_diff in combined mode, for all token lists and all opcode lists, emits every new-side group and every deleted group exactly once; grouping emits every chunk of a run once, text only inside groups; tokenising conserves both pages for every cap. The re-parse of the stream by html5-parser is decided per input by the observer on html_diff_render (text outside del markers = new page text, outside ins markers = old page text, as multisets).',
         note=RENDER_NOTE, design='5/C02'),
     'C03': dict(
-        technique='Coq proof: identity (a page against itself has the single Equal opcode, zero counts and no marker in any stream) for all trees via the aligned-sequences theorem about the difflib model; counts consistency; no markers when count is 0; opcode cover + extracted-model correspondence + observers (identity on every generated page and beyond the spacer cap; detection of text differences)',
-        text='Theorems: for every element tree, rule set and cap, diffing the token list against itself yields exactly one equal block, counts (0,0,0) and marker-free streams; any two token lists that are pairwise equal under the comparator give the single Equal opcode; change_count = insertions + deletions; a side whose count is 0 carries no markers; opcodes always cover both token lists contiguously; the spacer cap never removes content. Detection is a theorem: every block the matcher model returns relates its elements pairwise, so with rules off change_count = 0 implies that both token lists - and, through tokenising, customisation and the spacer cap, both element trees - carry the same sequence of words, opaque elements and link targets (C03_detection, C03_detection_pages). The step from the parsed page to readable text belongs to the parser (observer).',
+        technique='Coq proof: identity (a page against itself has the single Equal opcode, zero counts and no marker in any stream) for all trees via the aligned-sequences theorem about the difflib model; counts consistency; no markers when count is 0; opcode cover; detection: block soundness of the difflib model => same words/opaque elements/link targets => same non-whitespace text of the element trees (words keep every character, escaping injective) + extracted-model correspondence + observers (identity on every generated page and beyond the spacer cap; detection of text differences incl. look-alike characters)',
+        text='Theorems: for every element tree, rule set and cap, diffing the token list against itself yields exactly one equal block, counts (0,0,0) and marker-free streams; any two token lists that are pairwise equal under the comparator give the single Equal opcode; change_count = insertions + deletions; a side whose count is 0 carries no markers; opcodes always cover both token lists contiguously; the spacer cap never removes content. Detection is a theorem: every block the matcher model returns relates its elements pairwise, so with rules off change_count = 0 implies that both token lists - and, through tokenising, customisation and the spacer cap, both element trees - carry the same sequence of words, opaque elements and link targets (C03_detection, C03_detection_pages). Stated on the text itself (TextProofs): the non-whitespace characters of every text and tail of the element tree, in document order, with opaque elements as atoms, are a function of what the tokens carry (split_words keeps every non-whitespace character; escaping is an injective recoding), so for all trees and caps a difference in any non-whitespace character of the text gives change_count > 0 (C03_detection_text). What remains for the observer is html5-parser (bytes to tree).',
         note=RENDER_NOTE, design='5/C03'),
     'C09': dict(
         technique='Coq proof: html.escape output has no < > (and no quotes when asked) for all strings; every text chunk the tokeniser emits is escaped and so cannot start a tag; chunks are emitted verbatim by the marker machine; undiffable elements are one verbatim chunk + extracted-model correspondence + observer (script/style of every view are verbatim those of the inputs; deleted ones inert in a template)',
         text='Theorems: for all strings html.escape contains neither "<" nor ">" (nor quotes with quote=True), and unescape inverts it; for all trees every word, trailing-whitespace and body-text chunk of the flattened page is escape output, so no text chunk starts a tag; the marker machine emits chunks verbatim (no re-interpretation); script/style/svg/template elements are single opaque chunks; the fragment handed to the tokeniser (_diffable_fragment, modelled and tied char for char) writes text nodes of the body escaped, unwraps every source ins/del and keeps all text; every script/style below a deletion marker ends up in an inert template. Observer on html_diff_render: every script/style element in any view is verbatim one of the input page, deleted ones sit inside template.wm-diff-deleted-inert, the title diff meta contains no active markup, escaped payloads in text/attributes/title stay text.',
         note=RENDER_NOTE, design='5/C09'),
     'C15': dict(
-        technique='Coq proof: scan invariant of the marker state machine (no block-level tag chunk between an opening and closing marker) for all chunk lists and all contiguous opcodes (single-sided views), combined view = sequence of closed groups and loose tags for all opcode lists (through reconciliation); labelled machines refine the executable model + extracted-model correspondence + document-level observer (no block element inside ins/del.wm-diff in any view)',
-        text='Theorems: for every chunk list, merge_changes never leaves a block-level tag between marker open and close and ends with the marker closed; the same for the whole single-sided view under any contiguous opcode list; merge_change_groups only produces closed groups; the combined stream, for all token lists and all opcode lists and through reconciliation, is a sequence of whole closed groups and loose tags (C15_combined); block names are the regenerated table. Partial only at document level (the HTML re-parse, decided per input by the observer).',
+        technique='Coq proof: scan invariant of the marker state machine (no block-level tag chunk between an opening and closing marker) for all chunk lists and all contiguous opcodes (single-sided views), combined view = sequence of closed groups and loose tags for all opcode lists (through reconciliation); labelled machines refine the executable model; TREE LEVEL for the single-sided views: read with a stack of open elements, the view of every admissible page (decidable predicate on element trees; stream well nested, no block inside inline) is well nested with no block-level element opened under a marker - invariant through all branches of the marker machine, all contiguous opcode lists, induction over the tree + extracted-model correspondence + per-run run of the theorem instances and stack-parser vs html5-parser tree comparison on the views the implementation returns + document-level observer (no block element inside ins/del.wm-diff in any view)',
+        text='Theorems: for every chunk list, merge_changes never leaves a block-level tag between marker open and close and ends with the marker closed; the same for the whole single-sided view under any contiguous opcode list; merge_change_groups only produces closed groups; the combined stream, for all token lists and all opcode lists and through reconciliation, is a sequence of whole closed groups and loose tags (C15_combined); block names are the regenerated table. Tree level (NestingProofs): for all pairs of element trees, rule sets and caps, if the chosen page is admissible (page_ok) the single-sided view, read with a stack of open elements, closes every element and every marker properly, never nests markers and never opens a block-level element while a marker is open (C15_tree_level_pages); the hypothesis cannot be dropped (C15_nesting_needs_admissible_pages). What remains per input: that html5-parser reads such a well-nested stream like a stack parser (validated on every admissible generated page: identical trees), and the combined view at document level (observer).',
         note=RENDER_NOTE, design='5/C15'),
 })
 
@@ -109,7 +109,7 @@ CHECKS['C14'] = dict(
 
 CHECKS['C17'] = dict(
     technique='Coq proof that the order- and history-dependent constructs cannot influence a result (sorted(set(links)) is the same for every iteration order because the sort key is total on what the set keeps apart; scans over tag sets are existentials; lru_cache is transparent for every call history and eviction policy) + extracted-model correspondence of the sort + process-level exploration (fixed workload under hash seeds x call orders x repeated passes x process pool, digests compared; header mappings unchanged)',
-    text='Theorems: for every list of found links and every arrangement (permutation) of its de-duplicated set, sort_links gives the same list - the list handed to the matcher never depends on set iteration order, hence not on PYTHONHASHSEED; the sort key (text.lower(), href) is total on the (href, text.lower()) classes the set distinguishes and de-duplicated links have pairwise different keys; the SEPARATABLE_TAGS scans and all tag-set membership tests are invariant under permutation of the set; a memo cache in front of a pure function returns the function values for every call history and every eviction policy (instantiated for tag_info). A Gallina model is a function by construction, so purity of the model is not claimed. The process-level statement (hash seeds, sequences of calls in long-lived pool workers, native library state, header mappings) is explored: every differ of the service on a fixed workload, in fresh processes under 8 (32 thorough) hash seeds, 3 (6) call orders, repeated passes in one process and in a real process pool; all per-case digests must agree; colour variables may only change results carrying a style block; unrelated environment variables nothing. Labelled exploration in the evidence.',
+    text='Theorems: for every list of found links and every arrangement (permutation) of its de-duplicated set, sort_links gives the same list - the list handed to the matcher never depends on set iteration order, hence not on PYTHONHASHSEED; the sort key (text.lower(), href) is total on the (href, text.lower()) classes the set distinguishes and de-duplicated links have pairwise different keys; the SEPARATABLE_TAGS scans and all tag-set membership tests are invariant under permutation of the set; a memo cache in front of a pure function returns the function values for every call history and every eviction policy (instantiated for tag_info). A Gallina model is a function by construction, so purity of the model is not claimed. The process-level statement (hash seeds, sequences of calls in long-lived pool workers, native library state, header mappings) is explored: every differ of the service on a fixed workload, in fresh processes under 8 (32 thorough) hash seeds, 3 (6) call orders, repeated passes in one process and in a real process pool; all per-case digests must agree; colour variables may only change results carrying a style block; unrelated environment variables nothing; the process locale (LC_ALL=C) only through the one listed call site (known finding C17-dmp-locale: the native diff classifies characters by LC_CTYPE) - every locale-dependent result must become locale-independent when that one call is pinned. Labelled exploration in the evidence.',
     note='Trusted: Coq kernel, extraction, harness/purity_worker.py. Not modelled: native libraries (lxml, html5-parser, diff-match-patch) global state, pickling into workers - covered by exploration only.',
     design='5/C17')
 
